@@ -428,7 +428,7 @@ class FnEmit:
             if isinstance(ty, (IntT, FloatT)) and isinstance(ty2, (IntT, FloatT)):
                 return '(*(%s*)&(%s){%s})' % (c2, s.E.cty(ty), e)
             raise NotImplementedError('bitcast %r->%r' % (ty, ty2))
-        if op == 'ptrtoint': return '((%s)(uintptr_t)%s)' % (c2, e)
+        if op == 'ptrtoint': return '((%s)VP_PTOI(%s))' % (c2, e)
         if op == 'inttoptr': return '((%s)(uintptr_t)%s)' % (c2, e)
         if op == 'trunc': return s.mask('((%s)%s)' % (c2, e), ty2)
         if op == 'zext': return '((%s)%s)' % (c2, e)
